@@ -28,7 +28,7 @@ def regen_census(ck):
                        stdout=subprocess.PIPE, stderr=subprocess.STDOUT, text=True)
     ck.log(p.stdout.strip()[-300:])
     if p.returncode != 0:
-        ck.broken.append("gen/gen_handle_census.py could not translate the tree builders' struct / trace_handles: "
+        L.note_broken(ck, "gen/gen_handle_census.py could not translate the tree builders' struct / trace_handles: "
                          + p.stdout.strip()[-500:])
         return False
     return True
@@ -101,45 +101,13 @@ def gen_gc_cases(rng, n):
     return cases
 
 
-def run(ck):
-    tr_ok = regen_census(ck)
-    proofs_ok, impl, model = L.build(ck, extra_targets=["Inst/InstHandleCensus.vo"])
-    if not proofs_ok:
-        w = census_witness()
-        bad = {k: v["untraced"] for k, v in w.items() if v["untraced"]}
-        if bad:
-            ck.notes.append("Handle-bearing fields that trace_handles does not visit: %s" % json.dumps(bad))
-            ck.cov["untraced_handle_fields"] = bad
-    ck.cov["census"] = census_witness()
-    if model is None:
-        return ck.finish(trusted=L.TRUSTED + ["gen/gen_handle_census.py (fail-closed field census)"])
-    rng = ck.rng
-    if ck.replay:
-        rp = json.load(open(ck.replay))
-        cases = [rp["case"]] if "case" in rp else []
-    else:
-        cases = L.load_corpus("c18.txt")
-        for s in TARGETED:
-            for sc in ("s", "-"):
-                cases.append(L.mk_case("html", list(s), sc))
-                cases.append(L.mk_case("frag", list(s), sc, "html:div", True))
-        for s in XML_TARGETED:
-            cases.append(L.mk_case("xml", list(s)))
-        cases += gen_gc_cases(rng, 60000 if ck.quick else 700000)
-    res = L.run_all(ck, impl, model, cases, ["--gc"])
-
-    stats = {"html": 0, "frag": 0, "xml": 0, "tree_builder_panics": 0, "traces_judged": 0, "suspension_points": 0,
-             "suspension_points_collecting": 0, "nodes_collected": 0, "one_char_chunked": 0, "script_pauses": 0,
-             "gc_ok": 0, "gc_bad": 0, "suspension_points_where_tracing_mattered": 0, "parses_where_tracing_mattered": 0, "clone_traces": 0, "same_parse_compared": 0, "with_form_element": 0}
-    nontriv = set()
-    samples = []
-    failing = []
+def judge_batch(ck, impl, rng, cases, res, stats, nontriv, samples, failing):
     baseline = []           # (index, case without suspension)
     for idx, (case, (a, b)) in enumerate(zip(cases, res)):
         f = L.case_fields(case)
         stats[f["kind"]] += 1
         if "bad" in a:
-            ck.broken.append("sinkmon produced no result for %r: %s" % (case[:300], a["bad"]))
+            L.note_broken(ck, "sinkmon produced no result for %r: %s" % (case[:300], a["bad"]))
             continue
         if a["apanic"]:
             stats["tree_builder_panics"] += 1
@@ -148,7 +116,7 @@ def run(ck):
                     a["trace"][:160], json.dumps(L.describe(case), ensure_ascii=True)[:300]))
             continue
         if "bad" in b:
-            ck.broken.append("model driver failed on the trace of %r: %s" % (case[:300], b["bad"]))
+            L.note_broken(ck, "model driver failed on the trace of %r: %s" % (case[:300], b["bad"]))
             continue
         stats["traces_judged"] += 1
         if f["form"]:
@@ -169,28 +137,28 @@ def run(ck):
         if any(x > 0 for x in rescued):
             stats["parses_where_tracing_mattered"] += 1
         if any(x > 0 for x in coq_counts) or any(x > 0 for x in rescued):
-            nontriv.add(tr)
+            nontriv.add(hash(tr))
             if len(samples) < 3:
                 samples.append(L.describe(case)["input"][:200])
         clone = "maybe_clone_an_option" in tr
         if clone:
             stats["clone_traces"] += 1
         if b["GC"] == "INCONSISTENT":
-            ck.broken.append("gc_ok and gc_check disagree on %r" % case[:300])
+            L.note_broken(ck, "gc_ok and gc_check disagree on %r" % case[:300])
         coq_bad = b["GC"] != "ok"
         arena_bad = a["gc"] != "ok"
         # cross-check: the two collectors
         if not clone:
             if coq_bad != arena_bad:
-                ck.broken.append("the arena collector (%s) and Gc.gc_check (%s) disagree on %r" % (a["gc"][:80], b["GC"], case[:300]))
+                L.note_broken(ck, "the arena collector (%s) and Gc.gc_check (%s) disagree on %r" % (a["gc"][:80], b["GC"], case[:300]))
             elif coq_counts != arena_counts and not coq_bad:
-                ck.broken.append("the arena collector and Gc.gc_counts collect different numbers of nodes %s vs %s on %r" % (
+                L.note_broken(ck, "the arena collector and Gc.gc_counts collect different numbers of nodes %s vs %s on %r" % (
                     arena_counts[:20], coq_counts[:20], case[:300]))
         if not a["rpanic"] and a["rtrace"] != tr:
-            ck.broken.append("TraceSink<RcDom> and TraceSink<ArenaSink> recorded different calls for %r" % case[:300])
+            L.note_broken(ck, "TraceSink<RcDom> and TraceSink<ArenaSink> recorded different calls for %r" % case[:300])
         if coq_bad or arena_bad:
             stats["gc_bad"] += 1
-            failing.append((case, a, b))
+            failing.append((case, a, b) if len(failing) < 500 else None)
         else:
             stats["gc_ok"] += 1
         if rng.random() < 0.2 and not ck.replay:
@@ -209,8 +177,57 @@ def run(ck):
                              {"kind": "failing-input", "case": cases[idx], "input": L.describe(cases[idx])},
                              case_class="suspension-changes-parse")
 
+
+
+def run(ck):
+    tr_ok = regen_census(ck)
+    proofs_ok, impl, model = L.build(ck, extra_targets=["Inst/InstHandleCensus.vo"])
+    if not proofs_ok:
+        w = census_witness()
+        bad = {k: v["untraced"] for k, v in w.items() if v["untraced"]}
+        if bad:
+            ck.notes.append("Handle-bearing fields that trace_handles does not visit: %s" % json.dumps(bad))
+            ck.cov["untraced_handle_fields"] = bad
+    ck.cov["census"] = census_witness()
+    if model is None:
+        return ck.finish(trusted=L.TRUSTED + ["gen/gen_handle_census.py (fail-closed field census)"])
+    rng = ck.rng
+    if ck.replay:
+        rp = json.load(open(ck.replay))
+        batches = [[rp["case"]] if "case" in rp else []]
+    else:
+        total = 150000 if ck.quick else 2000000
+        bsz = 50000
+        batches = [None] * ((total + bsz - 1) // bsz)
+
+    stats = {"html": 0, "frag": 0, "xml": 0, "tree_builder_panics": 0, "traces_judged": 0, "suspension_points": 0,
+             "suspension_points_collecting": 0, "nodes_collected": 0, "one_char_chunked": 0, "script_pauses": 0,
+             "gc_ok": 0, "gc_bad": 0, "suspension_points_where_tracing_mattered": 0, "parses_where_tracing_mattered": 0,
+             "clone_traces": 0, "same_parse_compared": 0, "with_form_element": 0}
+    nontriv = set()
+    samples = []
+    failing = []
+    evaluations = 0
+    for bi, cases in enumerate(batches):
+        if cases is None:
+            cases = []
+            if bi == 0:
+                cases = L.load_corpus("c18.txt")
+                for s in TARGETED:
+                    for sc in ("s", "-"):
+                        cases.append(L.mk_case("html", list(s), sc))
+                        cases.append(L.mk_case("frag", list(s), sc, "html:div", True))
+                for s in XML_TARGETED:
+                    cases.append(L.mk_case("xml", list(s)))
+            cases += gen_gc_cases(rng, bsz)
+        evaluations += len(cases)
+        res = L.run_all(ck, impl, model, cases, ["--gc"])
+        judge_batch(ck, impl, rng, cases, res, stats, nontriv, samples, failing)
+        if len(ck.broken) > 20:
+            break
+
     by_class = {}
-    for case, a, b in failing:
+    for case, a, b in [f for f in failing if f is not None]:
         w = (a["gc"].split()[0].split(":") + ["?", "?"])[1] if a["gc"] not in ("ok", "-") else "model-only"
         cls = "use-after-collect:%s:%s" % (L.case_fields(case)["kind"], w)
         by_class.setdefault(cls, []).append((case, a, b))
@@ -223,7 +240,7 @@ def run(ck):
              "trace_tail": L.trace_ops(a["trace"])[-15:]}, case_class=cls)
 
     ck.cov.update({
-        "evaluations": len(cases), "distinct_nontrivial": len(nontriv),
+        "evaluations": evaluations, "distinct_nontrivial": len(nontriv),
         "rule": "one evaluation = one parse driven chunk by chunk with trace_handles + a simulated collection after every "
                 "return of tokenizer.feed, judged by the extracted Gc.gc_check; non-trivial = distinct call traces in which "
                 "at least one suspension point collected a node (a later use would have been flagged) or kept a node alive "
